@@ -199,6 +199,9 @@ def _undecided_keys(ctx):
     return {(r["rule"], r["construct"]) for r in ctx.results if r["verdict"] == report.UNDECIDED}
 
 
+_BASE = {}  # per worker process: (property, root) -> verdict keys of the unpatched tree
+
+
 def _run_one(job):
     prop, root, idx = job
     from .cli import run_property
@@ -223,8 +226,11 @@ def _run_one(job):
     known = {"%s|%s|%s" % (k["property"], k["rule"], k["construct"]) for k in report.load_known()
              if k.get("status", "known") == "known"}
     try:
-        base = run_property(prop, Repo(root))
-        base_v, base_u = _violation_keys(base, known), _undecided_keys(base)
+        bk = (prop, root)
+        if bk not in _BASE:
+            base = run_property(prop, Repo(root))
+            _BASE[bk] = (_violation_keys(base, known), _undecided_keys(base))
+        base_v, base_u = _BASE[bk]
         ctx = run_property(prop, Repo(root, overlay=overlay))
         new_v = _violation_keys(ctx, known) - base_v
         new_u = _undecided_keys(ctx) - base_u
